@@ -1,4 +1,179 @@
-/- Driver for C19 (stub: not built yet). -/
+/-
+Driver for C19.  Line protocol (tokens after the leading `C19`):
+
+  init <nTasks> <nDatasets> <names,>                    -> ok | E:value
+  hist <store> <learner> <datasets> <strats> <cv> <runs> -> per run: out, calls, written keys, store snapshot,
+                                                            registry, master file, load_predictions for every fold/part
+see harness/corr/C19.py for the field syntax.  Import-free (Model + Parse only).
+-/
+import SkVerif.Model.Orch
+import SkVerif.Drv.Parse
 namespace SkVerif.Drv.C19
-def handle (_toks : List String) : String := "bad-op"
+open SkVerif SkVerif.Orch SkVerif.Drv
+
+/-! the harness' estimator, mirrored exactly (harness/corr/C19.py `_Est`) -/
+
+def rowSum (x : List Rat) : Rat :=
+  ((List.range x.length).zip x).foldl (fun a (c, v) => a + ((c : Nat) + 1 : Rat) * v) 0
+
+def fitChk (X : List (List Rat)) (y : List Rat) : Rat :=
+  ((List.range X.length).zip (X.zip y)).foldl
+    (fun a (r, x, t) => a + ((r : Nat) + 1 : Rat) * (t + rowSum x)) 0
+
+def predChk (X : List (List Rat)) : Rat :=
+  ((List.range X.length).zip X).foldl (fun a (r, x) => a + ((r : Nat) + 1 : Rat) * rowSum x) 0
+
+/-- `ncls = 0`: regressor -/
+def learner (ncls : Nat) : Learner Rat where
+  fit p X y := (p : Rat) + fitChk X y
+  predict w X :=
+    if ncls = 0 then X.map (fun x => w / 2 + rowSum x)
+    else X.map (fun x => (((w + rowSum x).num % (ncls : Int) : Int) : Rat))
+
+/-! parsing -/
+
+def splitNE (s : String) (sep : String) : List String :=
+  if s == "-" || s == "" then [] else s.splitOn sep
+
+def parseRow? (s : String) : Option (List Rat) := (s.splitOn ",").mapM parseRat?
+
+def parseFeats? (s : String) : Option (Option (List Nat)) :=
+  if s == "all" then some none else ((s.splitOn ".").mapM parseNat?).map some
+
+structure PDS where
+  name : String
+  data : Data
+  labels : List Bool   -- presplit: true = "train"
+
+def parseDS? (s : String) : Option PDS :=
+  match s.splitOn ":" with
+  | [name, tpos, feats, rows, labels] => do
+    let tpos ← parseNat? tpos
+    let feats ← parseFeats? feats
+    let rows ← (splitNE rows "|").mapM parseRow?
+    let labs := if labels == "-" then [] else labels.toList.map (· == 'R')
+    pure ⟨name, ⟨rows, tpos, feats⟩, labs⟩
+  | _ => none
+
+def parseStrat? (s : String) : Option (Strat String) :=
+  match s.splitOn ":" with
+  | [name, p] => (parseInt? p).map (fun p => ⟨name, p⟩)
+  | _ => none
+
+def parseFold? (s : String) : Option (List Nat × List Nat) :=
+  match s.splitOn ">" with
+  | [a, b] => do
+    let a ← parseNatList? a
+    let b ← parseNatList? b
+    pure (a, b)
+  | _ => none
+
+/-- folds per dataset -/
+def parseCV? (s : String) (dss : List PDS) : Option (List (List (List Nat × List Nat))) :=
+  match s.splitOn ":" with
+  | ["kfold", k] => (parseNat? k).map (fun k => dss.map (fun d => kfold d.data.rows.length k))
+  | ["single", t] => (parseNat? t).map (fun t => dss.map (fun d => singleSplit d.data.rows.length t))
+  | ["presplit", "none"] => some (dss.map (fun d => presplit d.labels none))
+  | ["presplit", k] => (parseNat? k).map (fun k => dss.map (fun d => presplit d.labels (some k)))
+  | ["given", g] =>
+    let per := g.splitOn ";"
+    if per.length ≠ dss.length then none
+    else per.mapM (fun fs => (splitNE fs "|").mapM parseFold?)
+  | _ => none
+
+def parseRun? (s : String) : Option RunSpec :=
+  match s.splitOn ":" with
+  | [flags, fail, fresh] =>
+    match flags.toList.map (fun c => c == 'T'), parseBool? fresh with
+    | [owP, owF, saveF, pot], some fresh =>
+      if flags.toList.all (fun c => c == 'T' || c == 'F') then
+        if fail == "none" then some ⟨⟨owP, owF, saveF, pot⟩, none, fresh⟩
+        else (parseNat? fail).map (fun k => ⟨⟨owP, owF, saveF, pot⟩, some k, fresh⟩)
+      else none
+    | _, _ => none
+  | _ => none
+
+/-! printing -/
+
+def showErr : Err → String
+  | .inject => "E:inject" | .notImpl => "E:notimpl" | .value => "E:value" | .missing => "E:missing"
+
+def joinOr (l : List String) (sep : String) : String := if l.isEmpty then "-" else sep.intercalate l
+
+def showCall : Call String → String
+  | .fit it =>
+    let tr := iloc it.data it.train
+    let X := tr.map (featuresOf it.data)
+    let y := tr.map (targetOf it.data)
+    s!"f:{it.p}:{X.length}:{(X.headD []).length}:{showRat (fitChk X y)}:0"
+  | .predict it part =>
+    let X := (iloc it.data (it.idx part)).map (featuresOf it.data)
+    s!"p:{it.p}:{X.length}:{(X.headD []).length}:{showRat (predChk X)}:0"
+
+def showHddKey : String × String × Part × Nat → String
+  | (s, d, p, f) => s!"{s}/{d}/{s}_{p.str}_{f}"
+
+def showContent (c : Content) : String :=
+  s!"{showNatList c.idx}@{showRatList c.yTrue}@{showRatList c.yPred}"
+
+def showLoad {K} [DecidableEq K] (cfg : Cfg String K) (st : St String K Rat) (nfolds : Nat) : String :=
+  joinOr ((List.range nfolds).flatMap (fun f => [Part.train, Part.test].map (fun p =>
+    let res := match loadPredictions cfg st f p with
+      | .error e => showErr e
+      | .ok rs => joinOr (rs.map (fun ((s, d, r) : String × String × Rec) =>
+          s!"{s}~{d}~{showNatList r.c.idx}~{showRatList r.c.yTrue}~{showRatList r.c.yPred}")) "&"
+    s!"{f}{p.str}={res}"))) "|"
+
+def showRun {K} [DecidableEq K] (cfg : Cfg String K) (showKey : K → String) (nfolds : Nat) (i : Nat)
+    (r : Run String K Rat) : String :=
+  let out := match r.err with | none => "ok" | some e => showErr e
+  let master := match r.st.master with
+    | none => "none"
+    | some (s, d) => s!"{joinOr s ","}+{joinOr d ","}"
+  " ".intercalate [
+    s!"r{i}.out={out}",
+    s!"r{i}.calls={joinOr (r.log.map showCall) "|"}",
+    s!"r{i}.wr={joinOr ((r.wrRecs.map (fun k => "rec:" ++ showKey k)) ++ (r.wrStrats.map (fun k => "str:" ++ showKey k))) "|"}",
+    s!"r{i}.recs={joinOr (r.st.recs.map (fun (k, v) => showKey k ++ "@" ++ showContent v.c)) "|"}",
+    s!"r{i}.strats={joinOr (r.st.strats.map (fun (k, v) => showKey k ++ "@" ++ showRat v.w)) "|"}",
+    s!"r{i}.master={master}",
+    s!"r{i}.reg={joinOr r.st.regS ","}+{joinOr r.st.regD ","}",
+    s!"r{i}.load={showLoad cfg r.st nfolds}" ]
+
+def showHistory {K} [DecidableEq K] (cfg : Cfg String K) (showKey : K → String) (nfolds : Nat)
+    (rs : List (Run String K Rat)) : String :=
+  " ".intercalate (((List.range rs.length).zip rs).map (fun (i, r) => showRun cfg showKey nfolds i r))
+
+def handle (toks : List String) : String :=
+  match toks with
+  | ["init", nt, nd, names] =>
+    match parseNat? nt, parseNat? nd with
+    | some nt, some nd =>
+      match validate nt nd (splitNE names ",") with
+      | .ok _ => "ok"
+      | .error e => showErr e
+    | _, _ => "bad-op"
+  | ["hist", store, lrn, dss, strats, cv, runs] =>
+    let ncls? : Option Nat := match lrn.splitOn ":" with
+      | ["reg"] => some 0
+      | ["cls", n] => (parseNat? n).bind (fun n => if n = 0 then none else some n)
+      | _ => none
+    match ncls?, (splitNE dss ";").mapM parseDS?, (splitNE strats ";").mapM parseStrat?,
+          (splitNE runs ";").mapM parseRun? with
+    | some ncls, some pds, some sts, some rspecs =>
+      match parseCV? cv pds with
+      | none => "bad-op"
+      | some folds =>
+        let dsl : List (DS String) := (pds.zip folds).map (fun (d, f) => ⟨d.name, d.data, f⟩)
+        let items := mkWork dsl sts
+        let nfolds := (folds.map List.length).foldl max 0
+        let L := learner ncls
+        if store == "hdd" then
+          showHistory (hddCfg String) showHddKey nfolds (runHistory (hddCfg String) L items St.empty rspecs)
+        else if store == "ram" then
+          showHistory ramCfg id nfolds (runHistory ramCfg L items St.empty rspecs)
+        else "bad-op"
+    | _, _, _, _ => "bad-op"
+  | _ => "bad-op"
+
 end SkVerif.Drv.C19
